@@ -236,6 +236,48 @@ def _get_only_mach_data(data: List[DragDataPoint]) -> List[float]:
      "        for _f in ('angular', 'distance', 'velocity', 'pressure', 'temperature', 'adjustment', 'sight_height'):\n"
      "            setattr(cls, _f, None)\n        cls.angular = Unit.Degree\n",
      "schedule-only: defaults() blanks slots before assigning them (a concurrent reader sees None mid-reset)"),
+    # ---------------------------------------------------------------- C02
+    ("c02-unconverged-angle-returned", "C02", TC,
+     """        if zero_finding_error > _cZeroFindingAccuracy:
+            # ZeroFindingError contains an instance of last barrel elevation; so caller can check how close zero is""",
+     """        if zero_finding_error > _cZeroFindingAccuracy * 200:
+            # ZeroFindingError contains an instance of last barrel elevation; so caller can check how close zero is""",
+     "iteration cap reached close to the answer: the unconverged angle is returned as if it were a zero"),
+    ("c02-error-path-stores-last-elevation", "C02", IF,
+     "        shot.weapon.zero_elevation = self.barrel_elevation_for_target(shot, zero_distance)\n",
+     "        try:\n"
+     "            shot.weapon.zero_elevation = self.barrel_elevation_for_target(shot, zero_distance)\n"
+     "        except RuntimeError as err:\n"
+     "            if hasattr(err, 'last_barrel_elevation'):\n"
+     "                shot.weapon.zero_elevation = Angular.Radian(\n"
+     "                    (err.last_barrel_elevation >> Angular.Radian) - (shot.look_angle >> Angular.Radian))\n"
+     "            raise\n",
+     "a failed zeroing stores the last (unconverged) elevation before re-raising"),
+    ("c02-live-update-restored-on-error", "C02", [
+        (TC, "                self.barrel_elevation -= (height - height_at_zero) / zero_distance\n",
+         "                self.barrel_elevation -= (height - height_at_zero) / zero_distance\n"
+         "                shot_info.weapon.zero_elevation = Angular.Radian(self.barrel_elevation - self.look_angle)\n"),
+        (IF, "        shot.weapon.zero_elevation = self.barrel_elevation_for_target(shot, zero_distance)\n",
+         "        _old = shot.weapon.zero_elevation\n"
+         "        try:\n"
+         "            shot.weapon.zero_elevation = self.barrel_elevation_for_target(shot, zero_distance)\n"
+         "        except Exception:\n"
+         "            shot.weapon.zero_elevation = _old\n"
+         "            raise\n"),
+     ], None, None,
+     "crash-point only: the stored zero is updated live during the search and restored on ordinary errors, so only an "
+     "interrupt mid-search leaves a half-found zero behind (and barrel_elevation_for_target alters it meanwhile)"),
+    ("c02-zero-warm-start", "C02", [
+        (TC, "        iterations_count = 0\n        zero_finding_error = _cZeroFindingAccuracy * 2\n",
+         "        iterations_count = 0\n        zero_finding_error = _cZeroFindingAccuracy * 2\n"
+         "        _warm = getattr(self, '_warm', None)\n"
+         "        if _warm is not None and _warm[0] is shot_info.weapon and _warm[2] == distance_feet:\n"
+         "            self.barrel_elevation = _warm[1]\n"),
+        (TC, "        return Angular.Radian(self.barrel_elevation)\n",
+         "        self._warm = (shot_info.weapon, self.barrel_elevation, distance_feet)\n"
+         "        return Angular.Radian(self.barrel_elevation)\n"),
+     ], None, None,
+     "history-only: the search warm-starts from the elevation found last time for the same weapon and distance"),
 ]
 
 
